@@ -119,9 +119,13 @@ bool Module::initialize(const Json &js_parent)
         return false;
     }
 
-    for (const auto &item : children_) {
-        if (!item.module_ptr->initialize(js_this) && item.required) {
-            LogErr("required module `%s' initialize() fail", item.module_ptr->name().c_str());
+    for (auto iter = children_.begin(); iter != children_.end(); ++iter) {
+        if (!iter->module_ptr->initialize(js_this) && iter->required) {
+            LogErr("required module `%s' initialize() fail", iter->module_ptr->name().c_str());
+            //! 回滚：逆序清理已初始化的子模块，再清理自己，令每个成功的onInit()都有对应的onCleanup()
+            for (auto riter = std::vector<ModuleItem>::reverse_iterator(iter); riter != children_.rend(); ++riter)
+                riter->module_ptr->cleanup();
+            onCleanup();
             return false;
         }
     }
@@ -142,9 +146,13 @@ bool Module::start()
         return false;
     }
 
-    for (const auto &item : children_) {
-        if (!item.module_ptr->start() && item.required) {
-            LogErr("required module `%s' start() fail", item.module_ptr->name().c_str());
+    for (auto iter = children_.begin(); iter != children_.end(); ++iter) {
+        if (!iter->module_ptr->start() && iter->required) {
+            LogErr("required module `%s' start() fail", iter->module_ptr->name().c_str());
+            //! 回滚：逆序停止已启动的子模块，再停止自己，令每个成功的onStart()都有对应的onStop()
+            for (auto riter = std::vector<ModuleItem>::reverse_iterator(iter); riter != children_.rend(); ++riter)
+                riter->module_ptr->stop();
+            onStop();
             return false;
         }
     }
